@@ -73,7 +73,7 @@ pub fn program(p: &Program) -> String {
             SortKind::Plain => {
                 let _ = writeln!(out, "type {};", s.name);
             }
-            SortKind::Enum(_) => {}
+            SortKind::Enum(_) | SortKind::Member { .. } => {}
         }
     }
     // enums after plain types so that constructor argument types are declared
